@@ -398,6 +398,99 @@ theorem accepted_dir_entry (cfg : Cfg) (st : St) (q : Req) (k : Nat) (old : Byte
         rw [if_neg h3, if_neg c2, hrj j hj]
   · rw [if_neg hm, if_neg (by omega : ¬(28 ≤ j ∧ j < 32 ∧ q.mtime > 0)), if_neg (by omega : ¬(j = 33 ∧ q.mtime > 0))]
 
+/-! ### the two phases -/
+
+/-- the sequential Recommend is phase A followed by phase B with nothing in between. -/
+theorem recommend_eq_phases (find : Bytes → Nat → Bytes → Option Nat) (cfg : Cfg) (st : St) (q : Req) :
+    recommend find cfg st q =
+      match phaseA find cfg st q with
+      | .error e => (st, e)
+      | .ok t => phaseB st t := by
+  unfold recommend phaseA
+  simp only []
+  split
+  · rfl
+  · split
+    · rfl
+    · split
+      · rfl
+      · split
+        · rfl
+        · simp only [doAddRecommend, phaseB, phaseWrite, phaseIndex]
+          split <;> rfl
+
+/-- the score an index denotes for its entry `j`. -/
+def scoreAt (dir : Bytes) (j : Nat) : Int := toInt8 (dir.getD (j * dirSz + 33) 0)
+
+def Res.isOk : Res → Bool
+  | .ok _ _ => true
+  | _ => false
+
+/-- the index update of phase B, for ANY ticket (any copy, however stale): the files are untouched, the index
+keeps its length; if the call does not succeed the index is unchanged; if it does, only the entry
+`t.idx` can change, and its Recommend byte becomes `recommendUpdate` of the byte ON DISK with a delta in
+{-1, 0, 1}. -/
+theorem phaseIndex_cases (st : St) (t : Ticket) :
+    (phaseIndex st t).1.files = st.files ∧
+    (phaseIndex st t).1.dir.bytes.length = st.dir.bytes.length ∧
+    (((phaseIndex st t).2.isOk = false ∨ t.mtime ≤ 0) → (phaseIndex st t).1.dir = st.dir) ∧
+    (∀ j, (j + 1) * dirSz ≤ st.dir.bytes.length →
+      (phaseIndex st t).1.dir.bytes.getD (j * dirSz + 33) 0 = st.dir.bytes.getD (j * dirSz + 33) 0 ∨
+      ((phaseIndex st t).2.isOk = true ∧ t.idx = j + 1 ∧ ∃ u : Int, (u = -1 ∨ u = 0 ∨ u = 1) ∧
+        (phaseIndex st t).1.dir.bytes.getD (j * dirSz + 33) 0 =
+          recommendUpdate (st.dir.bytes.getD (j * dirSz + 33) 0) u)) := by
+  unfold phaseIndex
+  simp only []
+  by_cases hm : t.mtime > 0
+  · rw [if_pos hm]
+    generalize hu : scoreUpdate t.ctype (toInt8 (t.copy.getD offRecommend 0)) = u
+    have hu3 : u = -1 ∨ u = 0 ∨ u = 1 := by rw [← hu]; exact scoreUpdate_cases _ _
+    rcases modifyDirLite_cases st.dir (t.idx : Int) (modArgs (field t.copy offFilename lenFilename) t.mtime u)
+      with h | h | ⟨k, hk, hp, hle, hn, h⟩
+    · rw [h]; exact ⟨rfl, rfl, fun _ => rfl, fun j _ => Or.inl rfl⟩
+    · rw [h]; exact ⟨rfl, rfl, fun _ => rfl, fun j _ => Or.inl rfl⟩
+    · rw [h]
+      simp only []
+      have hrl : (record st.dir.bytes dirSz k).length = 128 := length_record_of_le _ _ _ hle
+      have hlen := modifyRecord_length (record st.dir.bytes dirSz k)
+        (modArgs (field t.copy offFilename lenFilename) t.mtime u) hrl
+      have hidx : t.idx = k + 1 := by omega
+      refine ⟨by first | rfl | trivial, ?_, ?_, ?_⟩
+      · apply length_writeAt_inside; rw [hlen]; rw [Nat.add_mul] at hle; omega
+      · intro hc
+        rcases hc with hc | hc
+        · simp [Res.isOk] at hc
+        · omega
+      · intro j hj
+        by_cases hjk : j = k
+        · subst hjk
+          right
+          refine ⟨by first | rfl | trivial, hidx, u, hu3, ?_⟩
+          rw [List.getD_eq_getElem?_getD,
+            getElem?_writeAt_in _ _ _ _ (by omega) (by rw [hlen, dirSz_eq]; omega)]
+          have : j * dirSz + 33 - j * dirSz = 33 := by omega
+          rw [this, modifyRecord_modArgs_getElem? _ _ _ _ hrl 33 (by omega), if_neg (by omega), if_pos rfl]
+          have h33 : (record st.dir.bytes dirSz j).getD 33 0 = st.dir.bytes.getD (j * dirSz + 33) 0 := by
+            apply getD_eq_of_getElem?
+            rw [getElem?_record, if_pos (by rw [dirSz_eq]; omega)]
+          rw [h33]; rfl
+        · left
+          apply getD_eq_of_getElem?
+          have hne : (j * dirSz + 33) / dirSz ≠ k := by rw [dirSz_eq]; omega
+          rcases outside_of_div_ne hne with h1 | h1
+          · exact getElem?_writeAt_before _ _ _ _ h1 (by rw [dirSz_eq] at hj ⊢; omega)
+          · apply getElem?_writeAt_after
+            rw [hlen]; rw [Nat.add_mul] at h1; omega
+  · rw [if_neg hm]
+    exact ⟨rfl, rfl, fun _ => rfl, fun j _ => Or.inl rfl⟩
+
+theorem phaseWrite_dir {st st1 : St} {t : Ticket} (h : phaseWrite st t = .ok st1) : st1.dir = st.dir := by
+  unfold phaseWrite at h
+  simp only [] at h
+  split at h
+  · cases h
+  · injection h with h; rw [← h]
+
 /-! ### the comment line -/
 
 /-- the line without its final newline. -/
